@@ -1,6 +1,7 @@
 package props
 
 import (
+	"bytes"
 	"fmt"
 	"runtime"
 	"sort"
@@ -63,12 +64,20 @@ func (r *c37Rec) take() []int {
 }
 
 // c37Quiesce waits until the callback goroutines started by handleTick are done.
-func c37Quiesce(base int) {
+// They are recognised in the dump of all goroutines by their creator (counting
+// goroutines is not enough: one left over by an earlier case may end meanwhile).
+func c37Quiesce() {
+	buf := make([]byte, 1<<20)
 	for i := 0; i < 200000; i++ {
-		if runtime.NumGoroutine() <= base {
+		n := runtime.Stack(buf, true)
+		if n == len(buf) {
+			buf = make([]byte, 2*len(buf))
+			continue
+		}
+		if !bytes.Contains(buf[:n], []byte("created by github.com/XiaoMi/Gaea/util.(*TimeWheel).handleTick")) {
 			return
 		}
-		if i < 1000 {
+		if i < 100 {
 			runtime.Gosched()
 		} else {
 			time.Sleep(20 * time.Microsecond)
@@ -85,14 +94,13 @@ func execC37(in core.Sexp) string {
 		return "(err new)"
 	}
 	rec := &c37Rec{}
-	base := runtime.NumGoroutine()
 	var outs []string
 	fresh := 0
 	for _, op := range in.Nth(3).List {
 		switch {
 		case op.IsAtom && op.Atom == "t":
 			tw.VerifLoopBody()
-			c37Quiesce(base)
+			c37Quiesce()
 			var b strings.Builder
 			b.WriteString("(f")
 			for _, r := range rec.take() {
